@@ -29,6 +29,7 @@ Definition isdecimal (c : N) : bool := match decimal_val c with Some _ => true |
 Definition is_upper (c : N) : bool := ((65 <=? c) && (c <=? 90))%N.
 Definition is_lower (c : N) : bool := ((97 <=? c) && (c <=? 122))%N.
 Definition is_19 (c : N) : bool := ((49 <=? c) && (c <=? 57))%N.
+Definition is_09 (c : N) : bool := ((48 <=? c) && (c <=? 57))%N.
 Definition to_upper (c : N) : N := if is_lower c then (c - 32)%N else c.
 Definition to_lower (c : N) : N := if is_upper c then (c + 32)%N else c.
 (* str.capitalize on ASCII letters *)
@@ -169,8 +170,14 @@ Definition match_selfies_atom (symbol : str) : option sym_fields :=
       let '(chg, s8) := match s7 with
                         | sg :: r =>
                             if (N.eqb sg 43 || N.eqb sg 45) then
-                              let '(ds, r') := span is_19 r in
-                              match ds with [] => ([], s7) | _ => (sg :: ds, r') end
+                              (* [1-9][0-9]* *)
+                              match r with
+                              | d1 :: r1 =>
+                                  if is_19 d1 then
+                                    let '(ds, r') := span is_09 r1 in (sg :: d1 :: ds, r')
+                                  else ([], s7)
+                              | [] => ([], s7)
+                              end
                             else ([], s7)
                         | [] => ([], s7) end in
       if str_eqb s8 (lit "]")
